@@ -597,6 +597,14 @@ def pd_field(prog: Program) -> RuleResult:
     return r
 
 
+def _sg_purge(prog):
+    # node indices are reused: a pair left in the relation index by a swept instance makes a new relation over the same indices look known,
+    # and it is then neither recorded nor followed by its inferences
+    from .c14 import sg_purge_directions
+
+    return sg_purge_directions(prog)
+
+
 def _rel_edges(prog):
     # the closure is computed over the relations the graph hands out: one hidden behind a parallel edge is a premise that is never used
     from .c14 import rel_edges
@@ -605,4 +613,4 @@ def _rel_edges(prog):
 
 
 def run(prog: Program, tier: str) -> List[RuleResult]:
-    return [_rel_edges(prog), pd_field(prog), pd_closure(prog), pd_owner(prog), pd_supers(prog), _mc_eq(prog), pd_replace(prog), pd_init(prog), user_truth(prog, ["property_descriptor.property_descriptor", "property_descriptor.monitored_container", "property_descriptor.property_descriptor_relation"], 2)]
+    return [_rel_edges(prog), _sg_purge(prog), pd_field(prog), pd_closure(prog), pd_owner(prog), pd_supers(prog), _mc_eq(prog), pd_replace(prog), pd_init(prog), user_truth(prog, ["property_descriptor.property_descriptor", "property_descriptor.monitored_container", "property_descriptor.property_descriptor_relation"], 2)]
